@@ -129,7 +129,7 @@ def buffered(R, prog):
             # success: partner notified whenever one is registered
             K.check_at(R, P + '.K7', G, res, lambda ev: ev.kind == 'return' and ev.depth == 0 and ev.f.const(ev.e['sub']) == 1,
                        require=lambda st, ev: any(okq.match(x) for x in st) and ('S:signalled' in st or
-                                                  any(re.match(r'^G:this->%s(\.load\(.*\))? <= 0=T$' % othercnt, x) or re.match(r'^G:this->%s(\.load\(.*\))?=F$' % othercnt, x) for x in st)),
+                                                  any(re.match(r'^G:\[?this->%s(\.load\(.*\))?\]? <= 0=T$' % othercnt, x) or re.match(r'^G:\[?this->%s(\.load\(.*\))?\]?=F$' % othercnt, x) for x in st)),
                        key_fn=lambda ev, fn=fn: '%s.K7:%s:success-notifies-registered-partner' % (P, fn),
                        describe=lambda ev: '`return true` only after %s succeeded, and the partner was signalled unless none is registered' % qop,
                        min_sites=1, what='return true')
